@@ -556,6 +556,12 @@ def tap_mac(side, llc, mon, state):
                     state["agf"] += 1
             else:
                 mon.on_recv(side, r)
+                if state.get("accepting") == side and any(
+                        q["type"] == "I" for q in r.get("pdus", [r])):
+                    # data reached the accepting side between the CC leaving
+                    # the listener's queue and llc.accept() registering the
+                    # new socket: it is handed to the listener and dropped
+                    state["early_data"] = True
         except ref.RefReject as rr:
             state["violation"] = Violation(
                 "frame-not-wellformed", "%s %s %s: %s"
@@ -602,6 +608,7 @@ def run_threads(case, ctx):
                     opts_t={"miu": miu["t"], "agf": bool(case["agf"][1]),
                             "sec": False})
     sched = pair.sched
+    sched.stalls = [list(x) for x in case.get("stalls", [])]
     import threading
 
     def guarded(name, fn):
@@ -652,7 +659,9 @@ def run_threads(case, ctx):
         srv.listen(1)
 
         def accept():
+            state["accepting"] = sv
             sock = srv.accept()
+            state["accepting"] = None
             guarded("recv-" + sv, lambda: receiver(sv, sock))
             if not greet:
                 while not mon.ends:     # until the CC PDU went out
@@ -738,6 +747,8 @@ def run_threads(case, ctx):
             ctx.label("both-directions")
         if case["choices"]:
             ctx.label("preemptive-schedule")
+        if sched.stalled:
+            ctx.label("stalled-threads")
         ctx.label("points:%s" % ("<200" if sched.points < 200 else "<1000"
                                  if sched.points < 1000 else "1000+"))
         if nmax >= 17 or (sent["i"] and sent["t"]) or any(e.rnr for e in ends):
@@ -747,8 +758,10 @@ def run_threads(case, ctx):
                   "virtual_s": round(sched.now, 3),
                   "sched_points": sched.points, "frames": pair.air.n})
     except Violation:
-        if mon.before_cc:
-            # data overtook the CC PDU: one class whatever oracle notices
+        if mon.before_cc or state.get("early_data"):
+            # data overtook the CC PDU, or arrived before the socket that
+            # accept() creates was registered: one class (the CC is queued
+            # on the listener) whatever oracle notices
             ctx.set_class("accept/send-before-cc")
         raise
     finally:
@@ -777,7 +790,13 @@ def threads_case(draw, tier):
             "choices": draw(st.one_of(
                 st.just([]), st.lists(st.integers(0, 5), max_size=60),
                 st.lists(st.integers(0, 5), max_size=600))),
-            "seed": draw(st.integers(0, 1000))}
+            "seed": draw(st.integers(0, 1000)),
+            # application threads lose the CPU (virtual time) at generated
+            # scheduling points while they hold no lock
+            "stalls": draw(st.one_of(st.just([]), st.lists(st.tuples(
+                st.sampled_from(["recv-i", "recv-t", "send-i", "send-t"]),
+                st.integers(1, 200),
+                st.sampled_from([0.002, 0.005, 0.02, 0.05])), max_size=8)))}
 
 
 LEGS = [
